@@ -109,8 +109,8 @@ def run(ctx, rep, tier):
             rep.check(len(ff) == 1, "C05.a", SC, f"{name}: the dummy's transition must be a fallthrough", "dummy fallthrough filter changed")
     # foreign else definition + default alphabet
     cfe = ast.unparse(model.func("DFState.compute_foreign_else_definition"))
-    ok = "our_alphabet = self.local_alphabet()" in cfe and "their_alphabet = other_state.local_alphabet()" in cfe and "local_else_additions = our_alphabet - their_alphabet" in cfe \
-        and "local_else_additions.add(DFTransition.Else)" in cfe
+    ok = model.has("DFState.compute_foreign_else_definition", "our_alphabet = self.local_alphabet()") and model.has("DFState.compute_foreign_else_definition", "their_alphabet = other_state.local_alphabet()") and model.has("DFState.compute_foreign_else_definition", "local_else_additions = our_alphabet - their_alphabet") \
+        and model.has("DFState.compute_foreign_else_definition", "local_else_additions.add(DFTransition.Else)")
     rep.check(ok, "C05.b", "DFState.compute_foreign_else_definition", "(own alphabet - other's alphabet) + Else", "foreign-else definition changed")
     la = model.func("DFState.local_alphabet")
     dflt = la.args.defaults
@@ -120,7 +120,7 @@ def run(ctx, rep, tier):
     # ------------------------------------------------------------------ C05.c  s = "" vs delete s
     rep.rule("C05.c", "`s = \"\"` (SetToStr with the empty literal) and `delete s` (DeleteBuf) have the same effect on length counter and terminator")
     pas = ast.unparse(model.func("ParseCtx._parse_assign_stmt"))
-    rep.check("if len(result) == 0 and ProgramData.do(ProgramFlag.USE_DELETE_FOR_EMPTY_STRING):" in pas and "return ActionNode(DeleteBuf(targeted))" in pas, "C05.c",
+    rep.check(model.has("ParseCtx._parse_assign_stmt", "if len(result) == 0 and ProgramData.do(ProgramFlag.USE_DELETE_FOR_EMPTY_STRING):") and model.has("ParseCtx._parse_assign_stmt", "return ActionNode(DeleteBuf(targeted))"), "C05.c",
               "ParseCtx._parse_assign_stmt", "rewrite applies to the empty literal only, under its flag", "the empty-string rewrite condition changed")
     fp = E.enumerate(ACT, classes={"action": "DeleteBuf"})
     n = 0
@@ -196,7 +196,7 @@ def run(ctx, rep, tier):
               f"enum values {vals}: ConditionalAction keeps the sub-action mode with the largest value, so a mix of finish and break/append must yield MAY_GOTO_TARGET or the "
               "targets of the conditional action are not followed and reachable states get removed")
     cm = ast.unparse(model.func("ConditionalAction.get_target_override_mode"))
-    ok = "submode = ActionOverrideMode.MAY_GOTO_UNDEFINED" in cm and "submode = ActionOverrideMode.MAY_GOTO_TARGET" in cm and "if submode.value > mode.value" in cm
+    ok = model.has("ConditionalAction.get_target_override_mode", "submode = ActionOverrideMode.MAY_GOTO_UNDEFINED") and model.has("ConditionalAction.get_target_override_mode", "submode = ActionOverrideMode.MAY_GOTO_TARGET") and model.has("ConditionalAction.get_target_override_mode", "if submode.value > mode.value")
     rep.check(ok, "C05.d", "ConditionalAction.get_target_override_mode", "ALWAYS_* weakened to MAY_*, strongest mode kept", "conditional-action mode aggregation changed")
     cmf = model.func("ConditionalAction.get_target_override_mode")
     rets = [n for n in walk_no_nested(cmf) if isinstance(n, ast.Return)]
@@ -206,7 +206,7 @@ def run(ctx, rep, tier):
               "a conditional action's sub-actions run under run-time conditions (a branch may be skipped, an if may have no else): reporting an ALWAYS_* mode makes dfs() prune the "
               "transition's real target and code generation omit the state store - `if n > 100 { finish X; }` followed by more statements breaks when the condition is false")
     ct = ast.unparse(model.func("ConditionalAction.get_target_override_targets"))
-    rep.check("tgts.update(act.get_target_override_targets())" in ct and "itertools.chain(*self.sub_actions.values())" in ct, "C05.d", "ConditionalAction.get_target_override_targets",
+    rep.check(model.has("ConditionalAction.get_target_override_targets", "tgts.update(act.get_target_override_targets())") and model.has("ConditionalAction.get_target_override_targets", "itertools.chain(*self.sub_actions.values())"), "C05.d", "ConditionalAction.get_target_override_targets",
               "union of all sub-actions' targets", "conditional-action targets changed")
     dfs = model.func("DFA.dfs")
     dsrc = ast.unparse(dfs)
@@ -216,7 +216,7 @@ def run(ctx, rep, tier):
     rep.check(follow == 2 and "if use_real:" in dsrc and "yield from aux(t.target)" in dsrc, "C05.d", "DFA.dfs", "override targets followed; the real target skipped only when an action always leaves",
               "dfs no longer follows override targets / real targets as before")
     ri = ast.unparse(model.func("DfaCompileCtx._optimize_remove_inaccessible"))
-    rep.check("accessible = set(self.dfa.dfs())" in ri and "if i not in accessible" in ri, "C05.d", "DfaCompileCtx._optimize_remove_inaccessible", "removes exactly the states dfs() does not reach", "removal criterion changed")
+    rep.check(model.has("DfaCompileCtx._optimize_remove_inaccessible", "accessible = set(self.dfa.dfs())") and model.has("DfaCompileCtx._optimize_remove_inaccessible", "if i not in accessible"), "C05.d", "DfaCompileCtx._optimize_remove_inaccessible", "removes exactly the states dfs() does not reach", "removal criterion changed")
 
     # ------------------------------------------------------------------ C05.e who reads optimisation flags
     rep.rule("C05.e", "each optimisation flag is read only by its own pass / template")
@@ -239,7 +239,7 @@ def run(ctx, rep, tier):
             src = ast.unparse(model.func(q))
             rep.check(re.search(r"if not ProgramData\.do\(ProgramFlag\.%s\):\s+return 0" % fl, src) is not None, "C05.e", q, "pass is a no-op when its flag is off", "flag gating of the pass changed")
     se = ast.unparse(model.func("DfaCompileCtx._optimize_simplify_transition_matches"))
-    rep.check("if len(transition.on_values) > 1 and DFTransition.Else in transition.on_values:" in se and "transition.on_values = [DFTransition.Else]" in se, "C05.e",
+    rep.check(model.has("DfaCompileCtx._optimize_simplify_transition_matches", "if len(transition.on_values) > 1 and DFTransition.Else in transition.on_values:") and model.has("DfaCompileCtx._optimize_simplify_transition_matches", "transition.on_values = [DFTransition.Else]"), "C05.e",
               "DfaCompileCtx._optimize_simplify_transition_matches", "only drops symbols already covered by Else on the same transition", "else simplification changed")
 
     # ------------------------------------------------------------------ C05.f range collapse run restart
